@@ -12,9 +12,15 @@ package lightning
 //@   ensures result == ln.fee(amount)
 //@   ensures result <= amount
 
+// A-LN1: the invoice a backend creates for `amount` sat encodes amount*1000 msat
+// and the payment hash it reports.
 //@ func (Client).CreateInvoice(amount)
 //@   trusted
 //@   pure
+//@   ensures err == nil ==> decode.msat(r0.PaymentRequest) == amount * 1000 && decode.hash(r0.PaymentRequest) == r0.PaymentHash
+// A-LN3: the payment hash of a new invoice is not the hash of any stored quote
+//@   ensures err == nil ==> (forall q Str :: db.melt[q] ==> db.meltrow[q].PaymentHash != r0.PaymentHash)
+//@   ensures err == nil ==> (forall q Str :: db.mq[q] ==> db.mqrow[q].PaymentHash != r0.PaymentHash)
 
 //@ func (Client).InvoiceStatus(hash)
 //@   trusted
